@@ -262,7 +262,7 @@ def execLine2 (w : World) (line : String) : World × String :=
     | some (.live g) => (w, "ok " ++ hexOfBytes (Cd.save g))
     | some .dead => (w, "dead")
     | some .unmodelled => (w, "unmodelled")
-    | some (.total x _) => if x.holes.isEmpty then (w, "ok " ++ hexOfBytes (Cd.save x.g)) else (w, "unmodelled")
+    | some (.total x _) => (w, "ok " ++ hexOfBytes (Cd.saveX x))
     | none => (w, "bad-op")
   | ["reload", h, h'] =>
     match parseHandle h, parseHandle h' with
@@ -276,12 +276,13 @@ def execLine2 (w : World) (line : String) : World × String :=
       | some .dead => (w.set b .dead, "dead")
       | some .unmodelled => (w.set b .unmodelled, "unmodelled")
       | some (.total x _) =>
-        if x.holes.isEmpty then
-          match Cd.load x.g.n (Cd.save x.g) with
-          | .ok g' => (w.set b (.total ⟨g', []⟩ false), "ok ; " ++ showNats (keys g'))
-          | .error .panic => (w.set b .dead, "panic")
-          | .error _ => (w.set b .dead, "err")
-        else (w.set b .unmodelled, "unmodelled")
+        -- emap sizes the restored table by the entry count: with a gap in the keys the insertion of the keys after the
+        -- gap is out of range (a panic in a build with debug assertions); removed slots at the top only leave no gap
+        match Cd.load x.g.n (Cd.saveX x) with
+        | .ok g' => (w.set b (.total ⟨g', []⟩ false), "ok ; " ++ showNats (keys g'))
+        | .error .panic => (w.set b .dead, "panic")
+        | .error .invalid => if x.holes.isEmpty then (w.set b .dead, "err") else (w.set b .dead, "panic")
+        | .error _ => (w.set b .dead, "err")
       | none => (w, "bad-op")
     | _, _ => (w, "bad-op")
   | ["loadcuts", h, step] =>
@@ -298,7 +299,16 @@ def execLine2 (w : World) (line : String) : World × String :=
       (w, s!"ok {size} {ks.length} bad=[{",".intercalate bad}]")
     | some .dead, _ => (w, "dead")
     | some .unmodelled, _ => (w, "unmodelled")
-    | some (.total _ _), _ => (w, "unmodelled")
+    | some (.total x _), some step =>
+      let img := Cd.saveX x
+      let size := img.length
+      let step := max step (size / 20000)
+      let ks := (List.range size).filter (fun k => step ≤ 1 ∨ k % step = 0 ∨ size - k ≤ 64 ∨ k < 64)
+      let bad := ks.filterMap (fun k => match Cd.load x.g.n (img.take k) with
+        | .ok _ => some s!"{k}:ok"
+        | .error .panic => some s!"{k}:panic"
+        | .error _ => none)
+      (w, s!"ok {size} {ks.length} bad=[{",".intercalate bad}]")
     | _, _ => (w, "bad-op")
   | cmd :: h :: rest =>
     match parseHandle h with
